@@ -19,7 +19,9 @@ RULE = ("cases = (declared graph, root, topological, checkCycles) listings, (dec
         "without version) queries, and integer graphs given to topologicalSort/stronglyConnectedComponents; graphs "
         "are generated from shapes (chain, diamond, shared sub-tree, random DAG, cyclic, name-cyclic across versions) "
         "with optional edges, explicit versions of declared and undeclared versions, two versions of one product, "
-        "names without a current version, unresolvable names, -j and unsetupRequired lines; a listing is "
+        "names without a current version, unresolvable names, -j and unsetupRequired lines, plus an exhaustive family "
+        "(4 products, every subset of 3 candidate lines per table: 4096 graphs; all of them in the thorough tier, a "
+        "seed-dependent slice of 30 otherwise); a listing is "
         "non-trivial when the root has at least one dependency, a uses query when it has at least one user, "
         "an integer graph when it has an edge; distinct = distinct (graph, query) digests")
 TRUSTED = ["utils.stronglyConnectedComponents (Tarjan) is modelled by its specification (mutual-reachability classes), "
@@ -89,6 +91,32 @@ def gen_graph(rng, wide=False):
             prods.append({"name": m, "version": v, "deps": deps, "tags": ["current"] if v == cur else []})
     rng.shuffle(prods)
     return {"products": prods, "shape": shape}
+
+
+ENUM_LINES = {
+    ("a", "1"): [("req", "b", None), ("req", "c", None), ("req", "c", "2")],
+    ("b", "1"): [("req", "a", None), ("req", "c", None), ("opt", "c", "2")],
+    ("c", "1"): [("req", "a", None), ("req", "b", None), ("req", "zz", None)],
+    ("c", "2"): [("req", "a", None), ("opt", "b", None), ("req", "c", None)],
+}
+
+
+def enum_count(width=3):
+    return (2 ** width) ** len(ENUM_LINES)
+
+
+def enum_graph(i, width=3):
+    """The i-th graph of the exhaustive family: products a 1, b 1, c 1 (all current) and c 2; the table of each
+    is a subset of its first `width` candidate lines (ENUM_LINES).  Covers every combination of chain, diamond,
+    cycle (a-b, a-c, b-c, through either version of c), two versions in one closure, same-name dependency,
+    optional and unresolved lines over this alphabet."""
+    prods = []
+    for key in sorted(ENUM_LINES):
+        mask = i % (2 ** width)
+        i //= 2 ** width
+        deps = [{"k": k, "n": n, "v": v, "j": False} for b, (k, n, v) in enumerate(ENUM_LINES[key][:width]) if mask >> b & 1]
+        prods.append({"name": key[0], "version": key[1], "deps": deps, "tags": [] if key == ("c", "2") else ["current"]})
+    return {"products": prods, "shape": "enum"}
 
 
 def queries_of(graph):
@@ -546,7 +574,18 @@ def run(ctx):
     if cg:
         evaluate(ctx, cg, ncli=1)
     evaluate_topo(ctx, ctx.n(1500, 40000))
-    n = ctx.n(130, 6000)
+    # exhaustive small family: all of it in the thorough tier, a slice that moves with the seed otherwise
+    total = enum_count()
+    if ctx.tier == "thorough" or ctx.escalated:
+        ids = list(range(total))
+        ctx.note("exhaustive family: all %d graphs over %s" % (total, sorted(ENUM_LINES)))
+    else:
+        ids = [(ctx.seed * 977 + k * 103) % total for k in range(30)]
+    for at in range(0, len(ids), 120):
+        if ctx.out_of_time():
+            break
+        evaluate(ctx, [enum_graph(i) for i in ids[at:at + 120]], ncli=1 if ctx.tier != "thorough" else 0)
+    n = ctx.n(120, 6000)
     done = 0
     while done < n and not ctx.out_of_time():
         k = min(60, n - done)
